@@ -928,6 +928,8 @@ func (m *MutableOverlayWorld) RemoveTag(id b6.FeatureID, key string) error {
 		if base == nil {
 			return fmt.Errorf("No feature with ID %s", id)
 		}
+		// The feature as it currently reads, including tags set or removed through this world
+		base = m.tags.WrapFeature(base)
 		if tag := base.Get(key); tag.IsValid() {
 			if _, indexed := b6.TokenForTag(tag); indexed {
 				f = NewFeatureFromWorld(base)
